@@ -225,6 +225,17 @@ class World:
                 inst._verif_pid = pid
                 self.services.append(inst)
                 rec["result"] = "created"
+                if spec.get("singleton"):
+                    # ask for the singleton again later, when it is already running
+                    def again(n=spec["singleton"]):
+                        for _ in range(n):
+                            time.sleep(self.sc.get("accept_delay", 0.01) * 2 + 0.005)
+                            if self.ended.is_set():
+                                return
+                            if cls() is not inst:
+                                self.ev(pid, "singleton-broken")
+
+                    threading.Thread(target=again, daemon=True).start()
             elif how == "adopt":
                 args, kwargs = self.make_args(spec)
                 payload = self.build(spec)
@@ -538,6 +549,16 @@ class World:
                 async def run(self):
                     return await run()
         Svc.__name__ = Svc.__qualname__ = "Svc_%d" % spec["id"]
+        if spec.get("singleton"):
+            # a service that exists once: constructing it again hands out the existing instance
+            the_one = []
+
+            def __new__(cls, *args, **kwargs):
+                if not the_one:
+                    the_one.append(object.__new__(cls))
+                return the_one[0]
+
+            Svc.__new__ = __new__
         if spec.get("value_semantics") == "equal":
             # distinct live service instances that compare and hash equal (a dataclass-like service)
             Svc._verif_equal = True
